@@ -174,6 +174,14 @@ class CGraph:
                 raise Exception(err_str)
             # print self
 
+        # the pullback of an in-place buffer write restores the overwritten
+        # contents (STEP 3 of Function.pullback); redo the writes in recording
+        # order so that the forward values are intact again, e.g. for a
+        # second reverse sweep after the same forward evaluation
+        for f in self.functionList:
+            if is_set(f.setitem):
+                f.args[0].x[f.setitem[0]] = f.args[2].x
+
     def function(self, x_list):
         """ computes the function of a function y = f(x_list), where y is a scalar
         and x_list is a list or tuple of input arguments.
